@@ -85,6 +85,13 @@ def cases(tier, seed):
         out.append({"desc": d, "cli": mi % 5 == 0 or big, "w": 20 if big else nlev})
         if nlev >= 2 and not big and mi % 4 == 1:
             out.append({"desc": d, "poison_covered": True, "w": 1})
+    # seven levels towards the far corner, twelve fields (volFrac among them): FAB header lines longer than 100 bytes
+    d = dict(scope.deep_corner_mesh())
+    d.update(geos[seed % 2])
+    L2 = scope.layouts(2, 'idrev')
+    d.update({"fields": ["temp", "volFrac", "density"] + ["p%d" % i for i in range(9)], "payload": ["pos", "frac", "signed"] + ["coded"] * 9,
+              "layout": [None, L2[-1], None, L2[1], None, L2[2], L2[-1]], "seed": seed})
+    out.append({"desc": d, "cli": True, "w": 30})
     return out
 
 
